@@ -4,6 +4,7 @@ import (
 	"fmt"
 	"math"
 	"math/rand/v2"
+	"sort"
 
 	"gonum.org/v1/gonum/stat/distuv"
 )
@@ -16,6 +17,49 @@ var (
 )
 
 func cat(a []float64, b ...float64) []float64 { return append(append([]float64(nil), a...), b...) }
+
+// ulps returns v and its two floating-point neighbours.
+func ulps(vs ...float64) []float64 {
+	var o []float64
+	for _, v := range vs {
+		o = append(o, math.Nextafter(v, math.Inf(-1)), v, math.Nextafter(v, math.Inf(1)))
+	}
+	return o
+}
+
+// nb returns the neighbourhood of a branch constant: 1% below, 1 ulp below, the
+// constant, 1 ulp above, 1% above.
+func nb(vs ...float64) []float64 {
+	var o []float64
+	for _, v := range vs {
+		o = append(o, v*0.99, math.Nextafter(v, math.Inf(-1)), v, math.Nextafter(v, math.Inf(1)), v*1.01)
+	}
+	return o
+}
+
+// set merges value lists into a sorted list without duplicates.
+func set(lists ...[]float64) []float64 {
+	var all []float64
+	for _, l := range lists {
+		all = append(all, l...)
+	}
+	sort.Float64s(all)
+	o := all[:0]
+	for i, v := range all {
+		if i == 0 || v != all[i-1] {
+			o = append(o, v)
+		}
+	}
+	return o
+}
+
+// pickT returns q in the quick tier and q plus extra in the thorough tier.
+func pickT(th bool, q []float64, extra ...float64) []float64 {
+	if th {
+		return set(q, extra)
+	}
+	return set(q)
+}
 
 // uvSpec describes one distuv type: how to build it from a parameter vector,
 // its parameter grid, its support and which absolute moments exist. Everything
@@ -60,10 +104,13 @@ func zero(p []float64) float64       { return 0 }
 // locScale pairs used where a full L x C product would only repeat an affine map.
 func locScalePairs(thorough bool) [][]float64 {
 	if thorough {
-		return prod(locL, scaleC)
+		return prod(locL, cat(scaleC, 1e-4, 1e4))
 	}
-	return [][]float64{{0, 1}, {-3, 1e-2}, {2, 1e2}, {2, 1}}
+	return prod(locL, scaleC)
 }
+
+// locScaleLS is locScalePairs as separate lists for prod().
+func scalesT(th bool) []float64 { return pickT(th, scaleC, 1e-4, 1e4) }
 
 func ints(lo, hi int) []float64 {
 	var o []float64
@@ -91,7 +138,12 @@ func uvSpecs() []uvSpec {
 			name: "AlphaStable", pnames: []string{"Alpha", "Beta", "C", "Mu"},
 			grid: func(th bool) [][]float64 {
 				var out [][]float64
-				for _, a := range []float64{0.3, 0.5, 0.99, 1, 1.01, 1.5, 2} {
+				// Alpha = 1 is a separate branch of the sampler; 2 is the upper end of the domain
+				as := set([]float64{0.3, 0.5, 1.5, 1.98, math.Nextafter(2, 0), 2}, nb(1))
+				if th {
+					as = set(as, []float64{0.1, 0.75, 1 - 1e-6, 1 + 1e-6, 1.25, 1.9})
+				}
+				for _, a := range as {
 					for _, b := range []float64{-1, -0.5, 0, 0.5, 1} {
 						for _, ls := range locScalePairs(th) {
 							out = append(out, []float64{a, b, ls[1], ls[0]})
@@ -149,7 +201,9 @@ func uvSpecs() []uvSpec {
 		},
 		{
 			name: "Bernoulli", pnames: []string{"P"},
-			grid:     func(bool) [][]float64 { return prod([]float64{0, 0.01, 0.3, 0.5, 0.7, 0.99, 1}) },
+			grid: func(th bool) [][]float64 {
+				return prod(pickT(th, set([]float64{0, 0.01, 0.3, 0.7, 0.99, 1}, nb(0.5)), 1e-9, 0.1, 0.9, 1-1e-9))
+			},
 			mk:       func(p []float64, src rand.Source) any { return distuv.Bernoulli{P: p[0], Src: src} },
 			lo:       zero,
 			hi:       func([]float64) float64 { return 1 },
@@ -158,7 +212,14 @@ func uvSpecs() []uvSpec {
 		},
 		{
 			name: "Beta", pnames: []string{"Alpha", "Beta"},
-			grid:     func(bool) [][]float64 { return prod(shapeS, shapeS) },
+			grid: func(th bool) [][]float64 {
+				// 1: Mode branches and the LogProb guards; 0.2 and 1: Gamma.Rand algorithm switches
+				v := pickT(th, set(shapeS, ulps(1), []float64{0.198, 0.2, 0.202}), 0.1, 0.19, 0.21, 1.5, 1.98, 2.02, 10, 100)
+				if th {
+					v = set(v, ulps(2))
+				}
+				return prod(v, v)
+			},
 			mk:       func(p []float64, src rand.Source) any { return distuv.Beta{Alpha: p[0], Beta: p[1], Src: src} },
 			lo:       zero,
 			hi:       func([]float64) float64 { return 1 },
@@ -167,11 +228,18 @@ func uvSpecs() []uvSpec {
 		{
 			name: "Binomial", pnames: []string{"N", "P"},
 			grid: func(th bool) [][]float64 {
-				ns := []float64{1, 2, 5, 24, 25, 26, 50}
-				if th {
-					ns = append(ns, 200, 1000)
+				// N < 25: direct method; N*min(P,1-P) < 1: Poisson rejection; else Cauchy rejection; P > 1/2: reflection
+				ns := pickT(th, []float64{1, 2, 5, 24, 25, 26, 50, 200}, 3, 10, 100, 1000)
+				ps := pickT(th, set([]float64{0, 0.01, 0.03, 0.3, 0.7, 0.97, 0.99, 1}, ulps(0.5)), 1e-6, 0.1, 0.495, 0.505, 0.9, 1-1e-6)
+				out := prod(ns, ps)
+				for _, n := range ns {
+					if n >= 25 { // straddle N*p = 1 from both sides of the reflection
+						for _, f := range []float64{0.99, 1, 1.01} {
+							out = append(out, []float64{n, f / n}, []float64{n, 1 - f/n})
+						}
+					}
 				}
-				return prod(ns, []float64{0, 0.01, 0.03, 0.3, 0.5, 0.7, 0.97, 0.99, 1})
+				return out
 			},
 			mk:       func(p []float64, src rand.Source) any { return distuv.Binomial{N: p[0], P: p[1], Src: src} },
 			lo:       zero,
@@ -192,15 +260,20 @@ func uvSpecs() []uvSpec {
 		},
 		{
 			name: "Chi", pnames: []string{"K"},
-			grid:     func(bool) [][]float64 { return prod(shapeS) },
-			mk:       func(p []float64, src rand.Source) any { return distuv.Chi{K: p[0], Src: src} },
+			grid: func(th bool) [][]float64 {
+				// 1: Mode and the LogProb guard; K/2 = 0.2 and K/2 = 1: Gamma.Rand switches
+				return prod(pickT(th, set(shapeS, nb(1), nb(2), nb(0.4)), 0.1, 0.2, 1.5, 3, 10, 100, 1000))
+			},
+			mk: func(p []float64, src rand.Source) any { return distuv.Chi{K: p[0], Src: src} },
 			lo:       zero,
 			hi:       posInf,
 			momOrder: allMoments, sampler: "rej",
 		},
 		{
 			name: "ChiSquared", pnames: []string{"K"},
-			grid:     func(bool) [][]float64 { return prod(cat(shapeS, 0.39, 0.4, 0.41)) },
+			grid: func(th bool) [][]float64 {
+				return prod(pickT(th, set(shapeS, nb(1), nb(2), nb(0.4), []float64{0.39, 0.41}), 0.1, 0.2, 1.5, 3, 10, 100, 1000))
+			},
 			mk:       func(p []float64, src rand.Source) any { return distuv.ChiSquared{K: p[0], Src: src} },
 			lo:       zero,
 			hi:       posInf,
@@ -208,7 +281,9 @@ func uvSpecs() []uvSpec {
 		},
 		{
 			name: "Exponential", pnames: []string{"Rate"},
-			grid:     func(bool) [][]float64 { return prod(cat(shapeS, 1e-2, 1e2)) },
+			grid: func(th bool) [][]float64 {
+				return prod(pickT(th, set(shapeS, ulps(1), []float64{1e-2, 1e2}), 1e-6, 1e-4, 0.1, 10, 1e4, 1e6))
+			},
 			mk:       func(p []float64, src rand.Source) any { return distuv.Exponential{Rate: p[0], Src: src} },
 			lo:       zero,
 			hi:       posInf,
@@ -218,11 +293,11 @@ func uvSpecs() []uvSpec {
 		{
 			name: "F", pnames: []string{"D1", "D2"},
 			grid: func(th bool) [][]float64 {
-				d := cat(shapeS, 4, 6, 8, 9)
-				if !th {
-					return prod([]float64{0.5, 1, 2, 2.5, 5, 50}, d)
-				}
-				return prod(d, d)
+				// D1 = 2: Mode and the density at 0; D2 = 2, 4, 6, 8: existence of the moments;
+				// D/2 = 0.2 and D/2 = 1: Gamma.Rand switches
+				d1 := pickT(th, set(shapeS, ulps(2), []float64{0.4, 9}), 0.396, 0.404, 1.98, 2.02, 4, 6, 8, 20, 200)
+				d2 := pickT(th, set(shapeS, nb(2), ulps(4, 6, 8), []float64{0.4, 9}), 0.396, 0.404, 3.96, 4.04, 5.94, 6.06, 7.92, 8.08, 20, 200)
+				return prod(d1, d2)
 			},
 			mk:       func(p []float64, src rand.Source) any { return distuv.F{D1: p[0], D2: p[1], Src: src} },
 			lo:       zero,
@@ -232,7 +307,11 @@ func uvSpecs() []uvSpec {
 		},
 		{
 			name: "Gamma", pnames: []string{"Alpha", "Beta"},
-			grid:     func(bool) [][]float64 { return prod(cat(shapeS, 0.1, 0.19, 0.2, 0.21), scaleC) },
+			grid: func(th bool) [][]float64 {
+				// smallAlphaThresh = 0.2, Alpha == 1 (exponential), Alpha < 1 (boost, Mode)
+				a := pickT(th, set(shapeS, nb(0.2), ulps(1), []float64{0.1, 0.19, 0.21}), 0.01, 0.05, 1.5, 1.98, 2.02, 10, 100, 1000)
+				return prod(a, pickT(th, scaleC, 0.5, 2))
+			},
 			mk:       func(p []float64, src rand.Source) any { return distuv.Gamma{Alpha: p[0], Beta: p[1], Src: src} },
 			lo:       zero,
 			hi:       posInf,
@@ -240,7 +319,7 @@ func uvSpecs() []uvSpec {
 		},
 		{
 			name: "GumbelRight", pnames: []string{"Mu", "Beta"},
-			grid:     func(th bool) [][]float64 { return prod(locL, scaleC) },
+			grid:     func(th bool) [][]float64 { return prod(locL, scalesT(th)) },
 			mk:       func(p []float64, src rand.Source) any { return distuv.GumbelRight{Mu: p[0], Beta: p[1], Src: src} },
 			lo:       negInf,
 			hi:       posInf,
@@ -248,7 +327,11 @@ func uvSpecs() []uvSpec {
 		},
 		{
 			name: "InverseGamma", pnames: []string{"Alpha", "Beta"},
-			grid:     func(bool) [][]float64 { return prod(cat(shapeS, 3, 4, 4.5), scaleC) },
+			grid: func(th bool) [][]float64 {
+				// Alpha = 1, 2, 3, 4: existence of the moments; 0.2, 1: Gamma.Rand switches
+				a := pickT(th, set(shapeS, ulps(1, 2, 3, 4), nb(0.2), []float64{4.5}), 0.1, 1.5, 1.98, 2.02, 2.97, 3.03, 3.96, 4.04, 10, 100)
+				return prod(a, scaleC)
+			},
 			mk:       func(p []float64, src rand.Source) any { return distuv.InverseGamma{Alpha: p[0], Beta: p[1], Src: src} },
 			lo:       zero,
 			hi:       posInf,
@@ -257,7 +340,7 @@ func uvSpecs() []uvSpec {
 		},
 		{
 			name: "Laplace", pnames: []string{"Mu", "Scale"},
-			grid:     func(bool) [][]float64 { return prod(locL, scaleC) },
+			grid:     func(th bool) [][]float64 { return prod(locL, scalesT(th)) },
 			mk:       func(p []float64, src rand.Source) any { return distuv.Laplace{Mu: p[0], Scale: p[1], Src: src} },
 			lo:       negInf,
 			hi:       posInf,
@@ -266,7 +349,7 @@ func uvSpecs() []uvSpec {
 		},
 		{
 			name: "Logistic", pnames: []string{"Mu", "S"},
-			grid:     func(bool) [][]float64 { return prod(locL, scaleC) },
+			grid:     func(th bool) [][]float64 { return prod(locL, scalesT(th)) },
 			mk:       func(p []float64, src rand.Source) any { return distuv.Logistic{Mu: p[0], S: p[1]} },
 			lo:       negInf,
 			hi:       posInf,
@@ -274,7 +357,9 @@ func uvSpecs() []uvSpec {
 		},
 		{
 			name: "LogNormal", pnames: []string{"Mu", "Sigma"},
-			grid:     func(bool) [][]float64 { return prod(locL, []float64{1e-2, 0.5, 1, 2}) },
+			grid: func(th bool) [][]float64 {
+				return prod(locL, pickT(th, []float64{1e-2, 0.5, 1, 2}, 1e-4, 0.1, 0.25, 1.5, 3))
+			},
 			mk:       func(p []float64, src rand.Source) any { return distuv.LogNormal{Mu: p[0], Sigma: p[1], Src: src} },
 			lo:       zero,
 			hi:       posInf,
@@ -282,7 +367,7 @@ func uvSpecs() []uvSpec {
 		},
 		{
 			name: "Normal", pnames: []string{"Mu", "Sigma"},
-			grid:     func(bool) [][]float64 { return prod(locL, scaleC) },
+			grid:     func(th bool) [][]float64 { return prod(locL, scalesT(th)) },
 			mk:       func(p []float64, src rand.Source) any { return distuv.Normal{Mu: p[0], Sigma: p[1], Src: src} },
 			lo:       negInf,
 			hi:       posInf,
@@ -291,7 +376,10 @@ func uvSpecs() []uvSpec {
 		},
 		{
 			name: "Pareto", pnames: []string{"Xm", "Alpha"},
-			grid:     func(bool) [][]float64 { return prod(scaleC, cat(shapeS, 3, 4, 4.5)) },
+			grid: func(th bool) [][]float64 {
+				a := pickT(th, set(shapeS, ulps(1, 2, 3, 4), []float64{4.5}), 0.1, 1.5, 1.98, 2.02, 2.97, 3.03, 3.96, 4.04, 10, 100)
+				return prod(scaleC, a)
+			},
 			mk:       func(p []float64, src rand.Source) any { return distuv.Pareto{Xm: p[0], Alpha: p[1], Src: src} },
 			lo:       func(p []float64) float64 { return p[0] },
 			hi:       posInf,
@@ -301,11 +389,8 @@ func uvSpecs() []uvSpec {
 		{
 			name: "Poisson", pnames: []string{"Lambda"},
 			grid: func(th bool) [][]float64 {
-				l := []float64{0.3, 0.99, 1, 2.5, 5, 9.99, 10, 10.01, 50}
-				if th {
-					l = append(l, 200, 1000)
-				}
-				return prod(l)
+				// Lambda < 10: direct method; else PTRS
+				return prod(pickT(th, set([]float64{0.3, 0.99, 1, 2.5, 5, 9.99, 10.01, 50, 200}, nb(10)), 1e-3, 0.1, 2, 9, 11, 12, 20, 100, 1000))
 			},
 			mk: func(p []float64, src rand.Source) any { return distuv.Poisson{Lambda: p[0], Src: src} },
 			lo: zero,
@@ -320,7 +405,12 @@ func uvSpecs() []uvSpec {
 			grid: func(th bool) [][]float64 {
 				var out [][]float64
 				for _, ls := range locScalePairs(th) {
-					for _, nu := range cat(shapeS, 3, 4, 4.5) {
+					// Nu = 1, 2: Mean/Variance branches; Nu/2 = 0.2, 1: Gamma.Rand switches
+					nus := set(shapeS, ulps(1, 2), nb(0.4), []float64{3, 4, 4.5})
+					if th {
+						nus = set(nus, []float64{0.1, 1.5, 1.98, 2.02, 10, 100, 1000})
+					}
+					for _, nu := range nus {
 						out = append(out, []float64{ls[0], ls[1], nu})
 					}
 				}
@@ -336,9 +426,20 @@ func uvSpecs() []uvSpec {
 		},
 		{
 			name: "Triangle", pnames: []string{"A", "B", "C"},
-			grid: func(bool) [][]float64 {
-				return [][]float64{{0, 1, 0.5}, {0, 1, 0}, {0, 1, 1}, {-3, 2, 0}, {-3, 2, -3}, {-3, 2, 2}, {0, 100, 1},
+			grid: func(th bool) [][]float64 {
+				// c = (a+b)/2: Median branch; c = a, c = b: degenerate sides
+				out := [][]float64{{0, 1, 0.5}, {0, 1, 0}, {0, 1, 1}, {-3, 2, 0}, {-3, 2, -3}, {-3, 2, 2}, {0, 100, 1},
 					{-3, 2, 1.99}, {2, 2.01, 2.005}, {-1, 1, 0.25}}
+				for _, ab := range [][2]float64{{0, 1}, {-3, 2}} {
+					m := (ab[0] + ab[1]) / 2
+					out = append(out, []float64{ab[0], ab[1], math.Nextafter(m, -9)}, []float64{ab[0], ab[1], math.Nextafter(m, 9)},
+						[]float64{ab[0], ab[1], math.Nextafter(ab[0], 9)}, []float64{ab[0], ab[1], math.Nextafter(ab[1], -9)})
+				}
+				out = append(out, []float64{-3, 2, -0.5})
+				if th {
+					out = append(out, []float64{-1e4, 1e4, 3}, []float64{0, 1e-4, 2.5e-5}, []float64{1e6, 1e6 + 1, 1e6 + 0.75}, []float64{-3, 2, -0.505}, []float64{-3, 2, -0.495})
+				}
+				return out
 			},
 			mk:       func(p []float64, src rand.Source) any { return distuv.NewTriangle(p[0], p[1], p[2], src) },
 			lo:       func(p []float64) float64 { return p[0] },
@@ -348,8 +449,12 @@ func uvSpecs() []uvSpec {
 		},
 		{
 			name: "Uniform", pnames: []string{"Min", "Max"},
-			grid: func(bool) [][]float64 {
-				return [][]float64{{0, 1}, {-3, 2}, {2, 102}, {-3, -2.99}, {0, 1e-2}}
+			grid: func(th bool) [][]float64 {
+				out := [][]float64{{0, 1}, {-3, 2}, {2, 102}, {-3, -2.99}, {0, 1e-2}}
+				if th {
+					out = append(out, []float64{-1e4, 1e4}, []float64{1e6, 1e6 + 1}, []float64{0, 1e-4}, []float64{-1, 0})
+				}
+				return out
 			},
 			mk:       func(p []float64, src rand.Source) any { return distuv.Uniform{Min: p[0], Max: p[1], Src: src} },
 			lo:       func(p []float64) float64 { return p[0] },
@@ -359,7 +464,10 @@ func uvSpecs() []uvSpec {
 		},
 		{
 			name: "Weibull", pnames: []string{"K", "Lambda"},
-			grid:     func(bool) [][]float64 { return prod(shapeS, scaleC) },
+			grid: func(th bool) [][]float64 {
+				// K = 1: Mode and the LogProb special case at 0
+				return prod(pickT(th, set(shapeS, ulps(1)), 0.1, 1.5, 1.98, 2.02, 10, 100), scaleC)
+			},
 			mk:       func(p []float64, src rand.Source) any { return distuv.Weibull{K: p[0], Lambda: p[1], Src: src} },
 			lo:       zero,
 			hi:       posInf,
